@@ -821,6 +821,11 @@ func (obj *SparseReal64VectorJointIterator) Ok() bool {
          !(obj.s2 == nil || obj.s2.GetFloat64() == float64(0))
 }
 func (obj *SparseReal64VectorJointIterator) Next() {
+  // skip positions where both operands hold a zero
+  for obj.next() && !obj.Ok() {
+  }
+}
+func (obj *SparseReal64VectorJointIterator) next() bool {
   ok1 := obj.it1.Ok()
   ok2 := obj.it2.Ok()
   obj.s1 = nil
@@ -847,6 +852,7 @@ func (obj *SparseReal64VectorJointIterator) Next() {
   } else {
     obj.s2 = ConstFloat64(0.0)
   }
+  return ok1 || ok2
 }
 func (obj *SparseReal64VectorJointIterator) Get() (Scalar, ConstScalar) {
   if obj.s1 == nil {
